@@ -1054,10 +1054,11 @@ class PartialReduce(ArrayExpr):
         if isinstance(meta, np.ma.core.MaskedConstant):
             meta = np.ma.array(meta, ndmin=0)
 
-        # keepdims over every axis reduces the empty meta to shape (1, ..., 1):
-        # a meta of rank >= 1 must stay empty or downstream meta inference that
-        # mixes it with empty metas fails.
-        if is_arraylike(meta) and getattr(meta, "ndim", 0) > 0 and getattr(meta, "size", 0):
+        # keepdims reduces the empty meta to length 1 along the reduced axes
+        # ((0, 1), or (1, ..., 1) over every axis): like Reduction._meta, a meta
+        # of rank >= 1 must have length 0 on every axis or downstream meta
+        # inference that mixes it with other metas fails.
+        if is_arraylike(meta) and getattr(meta, "ndim", 0) > 0 and any(s != 0 for s in meta.shape):
             from dask_array._utils import meta_from_array
 
             meta = meta_from_array(meta, ndim=meta.ndim)
